@@ -9,6 +9,7 @@ import (
 	"regexp"
 	"sort"
 	"strings"
+	"sync"
 )
 
 // thoroughExtras runs the additional analyses of the thorough tier:
@@ -76,14 +77,22 @@ func thoroughExtras(c *Ctx, prop, repo, verif string, seed int64, cov map[string
 	dirs, _ := filepath.Glob(filepath.Join(verif, "seeded", prop+"-*"))
 	sort.Strings(dirs)
 	var caught, missed, skipped []string
+	var mu sync.Mutex
+	var wg sync.WaitGroup
+	sem := make(chan struct{}, 6)
 	for _, d := range dirs {
+		d := d
 		id := filepath.Base(d)
 		tmp, err := os.MkdirTemp("", "dverif-seed-")
 		if err != nil {
 			skipped = append(skipped, id+" (no scratch dir)")
 			continue
 		}
-		func() {
+		wg.Add(1)
+		sem <- struct{}{}
+		go func() {
+			defer wg.Done()
+			defer func() { <-sem }()
 			defer os.RemoveAll(tmp)
 			files, _ := filepath.Glob(filepath.Join(repo, "*.go"))
 			for _, f := range append(files, filepath.Join(repo, "go.mod")) {
@@ -94,18 +103,26 @@ func thoroughExtras(c *Ctx, prop, repo, verif string, seed int64, cov map[string
 			patch := exec.Command("patch", "-p1", "-s", "-i", filepath.Join(d, "patch.diff"))
 			patch.Dir = tmp
 			if out, err := patch.CombinedOutput(); err != nil {
+				mu.Lock()
 				skipped = append(skipped, id+" (patch no longer applies: "+strings.TrimSpace(string(out))+")")
+				mu.Unlock()
 				return
 			}
 			cmd := exec.Command(exe, "check", "-prop", prop, "-tier", "quick", "-repo", tmp, "-verif", verif, "-noevidence")
 			out, _ := cmd.CombinedOutput()
+			mu.Lock()
 			if strings.Contains(string(out), "VIOLATION property="+prop) {
 				caught = append(caught, id)
 			} else {
 				missed = append(missed, id)
 			}
+			mu.Unlock()
 		}()
 	}
+	wg.Wait()
+	sort.Strings(caught)
+	sort.Strings(missed)
+	sort.Strings(skipped)
 	expected := map[string]bool{}
 	for _, id := range ex.Detected {
 		expected[id] = true
